@@ -106,6 +106,15 @@ func scenarios(c *Ctx) []*scenario {
 				w.inject(t)
 				return [][2]string{{"n0", "ghost"}, {"n1", "ghost"}}
 			}},
+		// the same loop on nodes whose hop limit is the largest a byte holds: budgets 0..255 all expire
+		{name: "loop2-phantom-maxhops255", n: 2, links: chain(2), maxHops: 255, phantoms: []string{"ghost"}, loopy: true,
+			setup: func(w *world) [][2]string {
+				addHash(w, "ghost", all(w)...)
+				t := tablesOf(w)
+				t["n0"]["ghost"], t["n1"]["ghost"] = "n1", "n0"
+				w.inject(t)
+				return [][2]string{{"n0", "ghost"}}
+			}},
 		{name: "loop3-phantom", n: 3, links: [][2]int{{0, 1}, {1, 2}, {2, 0}}, maxHops: 30, phantoms: []string{"ghost"}, loopy: true,
 			setup: func(w *world) [][2]string {
 				addHash(w, "ghost", all(w)...)
@@ -600,9 +609,23 @@ func traceCase(c *Ctx, im *Impl, cf *CaseFile, w *world, s *scenario, src, dst s
 	rp := &recPing{w: w, n: w.mesh.Nodes[src], self: src}
 	var hops []string
 	var lastErr error
-	for res := range netceptor.CreateTraceroute(context.Background(), rp, dst) {
+	tctx, tcancel := context.WithCancel(context.Background())
+	runaway := false
+	for res := range netceptor.CreateTraceroute(tctx, rp, dst) {
 		hops = append(hops, res.From)
 		lastErr = res.Err
+		if len(hops) > int(s.maxHops)+1 && !runaway {
+			// one probe per budget 0..maxHops: a traceroute that goes on after that never ends
+			runaway = true
+			tcancel()
+		}
+	}
+	tcancel()
+	if runaway {
+		im.Violate(fmt.Sprintf("traceroute %s %s -> %s: more than %d results (one per hop budget 0..%d): it does not end", s.name, src, dst, int(s.maxHops)+1, s.maxHops),
+			"traceroute-never-ends", map[string]interface{}{"scenario": s.name, "src": src, "dst": dst, "maxHops": s.maxHops, "results": len(hops)})
+		w.settle()
+		return
 	}
 	w.settle()
 	if w.injected != nil && !w.tablesIntact() {
